@@ -5,6 +5,7 @@ mod builder;
 mod codec;
 mod endpoint;
 mod queue;
+mod session;
 mod sim;
 mod timesync;
 mod util;
@@ -22,6 +23,7 @@ fn main() {
         "builder" => builder::run(),
         "sim" => sim::run(),
         "queue" => queue::run(),
+        "session" => session::run(),
         "timesync" => timesync::run(),
         "profile" => println!("{}", if cfg!(debug_assertions) { "debug" } else { "release" }),
         _ => {
